@@ -176,13 +176,18 @@ class TransformedTargetForecaster(
         self.check_is_fitted()
         self._update_y_X(y, X)
 
+        # each transformer, and the final forecaster, was fitted on the output of
+        # the preceding transformers, so it has to be updated with the new data in
+        # that same representation
+        yt = y
         for step_idx, name, transformer in self._iter_transformers():
             if hasattr(transformer, "update"):
-                transformer.update(y, update_params=update_params)
+                transformer.update(yt, update_params=update_params)
                 self.steps_[step_idx] = (name, transformer)
+            yt = transformer.transform(yt)
 
         name, forecaster = self.steps_[-1]
-        forecaster.update(y, update_params=update_params)
+        forecaster.update(yt, update_params=update_params)
         self.steps_[-1] = (name, forecaster)
         return self
 
